@@ -26,14 +26,22 @@ def classify(r, st, bits):
     mn = st.get("mn", "") if st else ""
     sh = shape(st)
     obs = r.get("obs") or []
+    if "undefined" in why:
+        return "D_UndefinedIsZero"
     if k == "ins" and not st["ops"]:
         return "D_NoOperandTable"
+    if k == "ins" and st["ops"] and r.get("at") == "cg" and len(obs) == 1 and mn not in ("PUSH", "POP", "INC", "DEC", "DIV", "MUL", "IDIV"):
+        return "D_IgnoredOperands"
     if k == "ins" and mn in ("RET", "RETF", "RETN", "HLT", "NOP") and st["ops"]:
         return "D_IgnoredOperands"
     if k == "ins" and bits == 16 and any(o["t"] == "m" and o.get("aw", 0) == 0 and not (-32768 <= o.get("d", 0) <= 65535) for o in st["ops"]):
         return "D_AbsTrunc16"
     if k == "ins" and mn in ("DIV", "MUL", "IDIV") :
         return "D_Group3"
+    if k == "br" and st["tgt"].get("nm") == "nowhere":
+        return "D_UndefinedIsZero"
+    if k == "ins" and mn == "MOV" and sh == ["s", "s"]:
+        return "D_SregAsGpr"
     if k in ("br",) or (k == "ins" and mn in ("JMP", "CALL")):
         if "C17" in tags:
             return "D_BitsGlobal"
@@ -44,6 +52,10 @@ def classify(r, st, bits):
         return "D_SizeEstimate"
     if k == "ins" and mn == "MOV" and "s" in sh and "m" in sh:
         return "D_MovMemSreg"
+    if k == "ins" and "s" in sh and mn not in ("PUSH", "POP") and not (mn == "MOV" and set(sh) <= {"s", "r16", "r32", "m"}):
+        return "D_SregAsGpr"
+    if k == "ins" and mn in ("RET", "RETN", "RETF") and st["ops"]:
+        return "D_IgnoredOperands"
     if k == "ins" and mn == "PUSH" and sh == ["i"]:
         return "D_PushImm"
     m = mems(st)
